@@ -1,5 +1,5 @@
 (* GENERATED from /repo's buffer.go by props/C09.py (mechanism G for the switches of Model/Accounting.v). Do not edit. *)
 (* sw_recycle_cleans_pinned: linkedBuffer.recycle() also cleans the pinned list. *)
-(* sw_write_after_close_rejected: WriteBytes / WriteByte / Reserve return ErrStreamClosed for a closed stream instead of allocating. *)
+(* sw_write_after_close_rejected: the write side takes no shared memory for a stream that has been closed (its writes go to heap slices). *)
 Definition sw_recycle_cleans_pinned : bool := true.
-Definition sw_write_after_close_rejected : bool := false.
+Definition sw_write_after_close_rejected : bool := true.
